@@ -31,7 +31,9 @@ TRUSTED = ['model input of a scalar shape = zero-offset buffer rebuilt from its 
            'numpy slicing / strided views / fancy indexing as transcribed in Model/PointShape.v',
            'pyarrow buffers() export of the point array and of the scalar shape '
            '(harness/common.py export_fixarr, harness/c02_util.py export_shape)',
-           'A-FLOAT: float64/float32/int arithmetic on the enumerated small integers is exact',
+           'A-FLOAT: float32/int arithmetic on the enumerated small integers is exact (float64: a theorem, '
+           'C02_*_float_exact, about Model/FloatKernels.v, which harness/cfloat_util.py compares with the '
+           'real kernels on arbitrary float64 inputs)',
            'numba.set_num_threads(1) during the run (the kernels hold no prange loop; scheduling only)']
 
 IMPORTS = 'Model.Num Model.Arrow Model.PointKernels Model.PointShape Model.PointShapeHarness'
@@ -738,10 +740,29 @@ def run(rep):
     rep.extra['model_cases'] = len(batch.cases)
     rep.extra['point_buffers_source'] = {v.name: v.rec_source for v in variants}
     rep.extra['model_vs_oracle_cases'] = sum(1 for m in batch.meta if m['oracle'] is not None)
+    run_float_model(rep)
+
+
+def run_float_model(rep):
+    """the binary64 model (Model/FloatKernels.v: segment_intersects_point,
+    point_intersects_polygon) against the real kernels on arbitrary float64 inputs; on the
+    integers |z| <= 2^25 that model is PROVED equal to the integer model (C02_*_float_exact)"""
+    try:
+        from . import cfloat_util
+        cfloat_util.run_float_kernels(rep)
+    except C.ModelUnavailable:
+        raise
+    except Exception as e:  # noqa: BLE001
+        rep.violation('float-kernel-harness-error',
+                      f'the float-kernel correspondence could not run: {type(e).__name__} {e}',
+                      {'float_kernel': 'harness-error', 'error': f'{type(e).__name__}: {e}'})
 
 
 def replay(rep, rp):
     _single_thread(rep)
+    if rp.get('float_kernel'):
+        from . import cfloat_util
+        return cfloat_util.replay(rep, rp)
     variants = build_variants()
     names = [v.name for v in variants]
     batch = Batch(variants)
